@@ -155,6 +155,36 @@ def r_chain(E):
                         if cmp_ok:
                             ok = True
         if ok is None:
+            # the same index table filled by a loop, possibly in a helper: `for i, key in enumerate(keys): last[key] = i`
+            # (a later entry overwrites: LAST index) — `last.setdefault(key, i)` / `if key not in last: last[key] = i` keep
+            # the FIRST; the elements whose own index is the table's are kept
+            from ..astutil import nodes_through_helpers as _nth_it
+            _fh_it, _fp_it = pm.function_finder(rel), pm.package_function_finder()
+            _it_nodes = list(_nth_it(fn, None, depth=2, find_function=lambda nm_: _fh_it(nm_) or _fp_it(nm_)))
+            for lp in [n for n in _it_nodes if isinstance(n, ast.For) and isinstance(n.iter, ast.Call)
+                       and norm(n.iter.func) == "enumerate" and isinstance(n.target, ast.Tuple) and len(n.target.elts) == 2
+                       and all(isinstance(e_, ast.Name) for e_ in n.target.elts) and len(n.body) == 1]:
+                iv, kv = lp.target.elts[0].id, lp.target.elts[1].id
+                b0 = lp.body[0]
+                verdict_ = None
+                if isinstance(b0, ast.Assign) and len(b0.targets) == 1 and isinstance(b0.targets[0], ast.Subscript) \
+                        and norm(b0.targets[0].slice) == kv and norm(b0.value) == iv:
+                    verdict_ = True
+                elif isinstance(b0, ast.Expr) and isinstance(b0.value, ast.Call) and isinstance(b0.value.func, ast.Attribute) \
+                        and b0.value.func.attr == "setdefault" and [norm(a_) for a_ in b0.value.args] == [kv, iv]:
+                    verdict_ = False
+                elif isinstance(b0, ast.If) and not b0.orelse and isinstance(b0.test, ast.Compare) and isinstance(b0.test.ops[0], ast.NotIn) \
+                        and norm(b0.test.left) == kv and len(b0.body) == 1 and isinstance(b0.body[0], ast.Assign) \
+                        and isinstance(b0.body[0].targets[0], ast.Subscript) and norm(b0.body[0].targets[0].slice) == kv:
+                    verdict_ = False
+                if verdict_ is None:
+                    continue
+                selects = any(isinstance(c, ast.Compare) and len(c.ops) == 1 and isinstance(c.ops[0], ast.Eq)
+                              and any(isinstance(x, ast.Subscript) for x in (c.left, c.comparators[0]))
+                              for c in ast.walk(fn))
+                if selects:
+                    ok = verdict_
+        if ok is None:
             # dict idiom: `{x.id: x for x in chain}.values()` / dict.fromkeys(chain) keep each key at the position of its
             # FIRST insertion (the object kept may be the last one, its place in the order is the first one's) —
             # unless the chain is walked backwards and the result reversed again
